@@ -83,7 +83,7 @@ def scalar_cmp_exec(rng, kind):
             extra += ["cmp %d %d" % (toks[0], tk[0]), "cmp %d %d" % (tk[1], toks[1])]
     return ["reset"] + L + all_pairs(toks) + extra
 
-def seq_cmp_exec(rng):
+def seq_cmp_exec(rng, strict=False):
     """sequences of different lengths and container kinds compared element-wise; Trees by key then value"""
     iv = [0, 1, -1, 2**32, I64MIN, I64MAX, 7]
     L, it = define("I", iv)
@@ -106,7 +106,7 @@ def seq_cmp_exec(rng):
             seqs.append(t); t += 1
     # empty sequences that still own storage (room reserved by resize; a first push that was refused and caught), and emptied ones
     d, stok = define("S", [b"refused"], t); L += d; t += 1
-    for how in ("resize", "refused", "popped", "plain"):
+    for how in (("resize", "popped", "plain") if strict else ("resize", "refused", "popped", "plain")):     # strict: no error path (C18's unchecked builds)
         for k in "AL":
             L.append("V %d %s 0" % (t, k))
             if how == "resize" and k == "A": L.append("hresize %d 6" % t)
